@@ -19,6 +19,7 @@ import (
 	"fmt"
 	"go/types"
 	"os"
+	"sort"
 	"strings"
 	"sync"
 
@@ -28,7 +29,17 @@ import (
 	"verif/engine/sym"
 )
 
+// mergeInv is shared by all local paths of one merged call: continuations from a loop
+// header are computed once per frame state and reused (the six ways a character can be
+// accepted all arrive at the header in the same state).
+type mergeInv struct {
+	memo map[string]Value
+	fn   *ssa.Function
+}
+
 type mergeScope struct {
+	inv       *mergeInv
+	skipHdr   *ssa.BasicBlock // the header a continuation run starts at (not merged again)
 	parent    *mergeScope
 	prefix    []bool
 	decisions []bool
@@ -213,16 +224,13 @@ func (m *Machine) mergedCall(fn *ssa.Function, args []Value, env []Value) (res V
 		}
 	}()
 	_ = steps0
-	type pathRes struct {
-		cond *sym.Term
-		val  Value
-	}
+	inv := &mergeInv{memo: map[string]Value{}, fn: fn}
 	var results []pathRes
 	work := [][]bool{nil}
 	for len(work) > 0 {
 		pre := work[len(work)-1]
 		work = work[:len(work)-1]
-		sc := &mergeScope{parent: outer, prefix: pre, decided: map[*sym.Term]bool{}}
+		sc := &mergeScope{inv: inv, parent: outer, prefix: pre, decided: map[*sym.Term]bool{}}
 		m.merge = sc
 		m.inIntrinsic = nil
 		v := m.callBody(fn, args, env)
@@ -235,9 +243,19 @@ func (m *Machine) mergedCall(fn *ssa.Function, args []Value, env []Value) (res V
 	}
 	m.merge = outer
 	m.inIntrinsic = inIntr
+	m.Merged++
+	return m.mergeResults(fn, results), true
+}
+
+type pathRes struct {
+	cond *sym.Term
+	val  Value
+}
+
+// mergeResults folds the (condition, results) of the local paths into one value.
+func (m *Machine) mergeResults(fn *ssa.Function, results []pathRes) Value {
 	if len(results) == 1 {
-		m.Merged++
-		return results[0].val, true
+		return results[0].val
 	}
 	sig := fn.Signature.Results()
 	mergeComp := func(i int, get func(Value) Value) Value {
@@ -277,16 +295,15 @@ func (m *Machine) mergedCall(fn *ssa.Function, args []Value, env []Value) (res V
 			return last
 		}
 	}
-	m.Merged++
 	if sig.Len() == 1 {
-		return mergeComp(0, func(v Value) Value { return v }), true
+		return mergeComp(0, func(v Value) Value { return v })
 	}
 	out := make(Tuple, sig.Len())
 	for i := range out {
 		i := i
 		out[i] = mergeComp(i, func(v Value) Value { return v.(Tuple)[i] })
 	}
-	return out, true
+	return out
 }
 
 func (m *Machine) strIte(cond *sym.Term, a, b *sym.Str) *sym.Str {
@@ -395,4 +412,263 @@ func (m *Machine) decideLen(s *sym.Str) int {
 		}
 	}
 	return len(s.Ch)
+}
+
+// ---------------------------------------------------------------- loop-header merging
+
+var loopHdrMemo = map[*ssa.BasicBlock]bool{}
+var liveMemo = map[*ssa.Function]map[*ssa.BasicBlock]map[ssa.Value]bool{}
+
+func isLoopHeader(b *ssa.BasicBlock) bool {
+	mergeableMu.Lock()
+	defer mergeableMu.Unlock()
+	if v, ok := loopHdrMemo[b]; ok {
+		return v
+	}
+	h := false
+	for _, p := range b.Preds {
+		if p.Index >= b.Index {
+			h = true
+		}
+	}
+	loopHdrMemo[b] = h
+	return h
+}
+
+func trackable(v ssa.Value) bool {
+	switch v.(type) {
+	case *ssa.Parameter, *ssa.FreeVar:
+		return true
+	case ssa.Instruction:
+		return true
+	}
+	return false
+}
+
+// liveIn: SSA values live on entry to each block (phi operands count as live-out of the
+// corresponding predecessor, not as live-in of the phi's block).
+func liveIn(fn *ssa.Function) map[*ssa.BasicBlock]map[ssa.Value]bool {
+	mergeableMu.Lock()
+	defer mergeableMu.Unlock()
+	if l, ok := liveMemo[fn]; ok {
+		return l
+	}
+	use := map[*ssa.BasicBlock]map[ssa.Value]bool{}
+	def := map[*ssa.BasicBlock]map[ssa.Value]bool{}
+	for _, b := range fn.Blocks {
+		use[b], def[b] = map[ssa.Value]bool{}, map[ssa.Value]bool{}
+		for _, ins := range b.Instrs {
+			if _, isPhi := ins.(*ssa.Phi); !isPhi {
+				var ops []*ssa.Value
+				for _, op := range ins.Operands(ops) {
+					if *op != nil && trackable(*op) && !def[b][*op] {
+						use[b][*op] = true
+					}
+				}
+			}
+			if v, ok := ins.(ssa.Value); ok {
+				def[b][v] = true
+			}
+		}
+	}
+	in := map[*ssa.BasicBlock]map[ssa.Value]bool{}
+	for _, b := range fn.Blocks {
+		in[b] = map[ssa.Value]bool{}
+	}
+	for changed := true; changed; {
+		changed = false
+		for i := len(fn.Blocks) - 1; i >= 0; i-- {
+			b := fn.Blocks[i]
+			out := map[ssa.Value]bool{}
+			for _, sb := range b.Succs {
+				for v := range in[sb] {
+					out[v] = true
+				}
+				for _, ins := range sb.Instrs {
+					ph, ok := ins.(*ssa.Phi)
+					if !ok {
+						break
+					}
+					for k, p := range sb.Preds {
+						if p == b && trackable(ph.Edges[k]) {
+							out[ph.Edges[k]] = true
+						}
+					}
+				}
+			}
+			for v := range use[b] {
+				if !in[b][v] {
+					in[b][v] = true
+					changed = true
+				}
+			}
+			for v := range out {
+				if !def[b][v] && !in[b][v] {
+					in[b][v] = true
+					changed = true
+				}
+			}
+		}
+	}
+	liveMemo[fn] = in
+	return in
+}
+
+func (m *Machine) valueKey(v Value, sb *strings.Builder, depth int) bool {
+	if depth > 4 {
+		return false
+	}
+	switch x := v.(type) {
+	case nil:
+		sb.WriteString("nil;")
+	case bool:
+		fmt.Fprintf(sb, "b%v;", x)
+	case int64:
+		fmt.Fprintf(sb, "i%d;", x)
+	case float64:
+		fmt.Fprintf(sb, "f%v;", x)
+	case string:
+		fmt.Fprintf(sb, "s%q;", x)
+	case *sym.Term:
+		fmt.Fprintf(sb, "T%p;", x)
+	case *sym.Str:
+		fmt.Fprintf(sb, "S%p[", x.Len)
+		for _, ch := range x.Ch {
+			fmt.Fprintf(sb, "%p,", ch)
+		}
+		sb.WriteString("];")
+	case Tuple:
+		sb.WriteString("(")
+		for _, e := range x {
+			if !m.valueKey(e, sb, depth+1) {
+				return false
+			}
+		}
+		sb.WriteString(");")
+	case Slice:
+		if len(x) > 32 {
+			return false
+		}
+		sb.WriteString("[")
+		for _, e := range x {
+			if !m.valueKey(e, sb, depth+1) {
+				return false
+			}
+		}
+		sb.WriteString("];")
+	case *mapIter:
+		if x.m != nil || x.keys != nil {
+			return false
+		}
+		sb.WriteString("it{")
+		if !m.valueKey(x.str, sb, depth+1) {
+			return false
+		}
+		fmt.Fprintf(sb, "%d/%d};", x.i, x.symN)
+	case Iface:
+		if x.T == nil {
+			sb.WriteString("nilI;")
+		} else {
+			sb.WriteString("I" + x.T.String() + ":")
+			return m.valueKey(x.V, sb, depth+1)
+		}
+	case *Value:
+		fmt.Fprintf(sb, "P%p;", x)
+	case *Ext:
+		fmt.Fprintf(sb, "E%p;", x)
+	default:
+		return false
+	}
+	return true
+}
+
+// loopStateKey describes the frame state on entry to header b coming from prev: the live
+// values and the values the header's phis are about to take.
+func (m *Machine) loopStateKey(fr *frame, b, prev *ssa.BasicBlock) (string, bool) {
+	var sb strings.Builder
+	fmt.Fprintf(&sb, "%d<-%d|", b.Index, prev.Index)
+	live := liveIn(fr.fn)[b]
+	var vals []ssa.Value
+	for v := range live {
+		vals = append(vals, v)
+	}
+	sort.Slice(vals, func(i, j int) bool { return vals[i].Name() < vals[j].Name() })
+	for _, v := range vals {
+		cur, ok := fr.locals[v]
+		if !ok {
+			continue
+		}
+		sb.WriteString(v.Name() + "=")
+		if !m.valueKey(cur, &sb, 0) {
+			return "", false
+		}
+	}
+	for _, ins := range b.Instrs {
+		ph, ok := ins.(*ssa.Phi)
+		if !ok {
+			break
+		}
+		for k, p := range b.Preds {
+			if p == prev {
+				sb.WriteString(ph.Name() + ":=")
+				if !m.valueKey(m.get(fr, ph.Edges[k]), &sb, 0) {
+					return "", false
+				}
+			}
+		}
+	}
+	return sb.String(), true
+}
+
+// mergeAtLoopHeader: inside a merge scope, the root frame arrives at a loop header. The
+// rest of the function from this state is explored once (its own local paths, feasibility
+// under the caller's path condition only, so that the result is valid for every way of
+// arriving here), merged into one value and remembered.
+func (m *Machine) mergeAtLoopHeader(fr *frame, b, prev *ssa.BasicBlock) (Value, bool) {
+	cur := m.merge
+	if cur == nil || cur.inv == nil || cur.inv.fn != fr.fn || len(fr.defers) > 0 {
+		return nil, false
+	}
+	if cur.skipHdr == b {
+		cur.skipHdr = nil
+		return nil, false
+	}
+	key, ok := m.loopStateKey(fr, b, prev)
+	if !ok {
+		return nil, false
+	}
+	if v, hit := cur.inv.memo[key]; hit {
+		m.LoopMemoHits++
+		return v, true
+	}
+	snapshot := fr.locals
+	var results []pathRes
+	work := [][]bool{nil}
+	for len(work) > 0 {
+		pre := work[len(work)-1]
+		work = work[:len(work)-1]
+		sc := &mergeScope{inv: cur.inv, skipHdr: b, parent: nil, prefix: pre, decided: map[*sym.Term]bool{}}
+		m.merge = sc
+		frc := &frame{fn: fr.fn, locals: make(map[ssa.Value]Value, len(snapshot)), env: fr.env}
+		for k, v := range snapshot {
+			if it, isIt := v.(*mapIter); isIt {
+				cp := *it
+				v = &cp
+			}
+			frc.locals[k] = v
+		}
+		func() {
+			defer func() { m.merge = cur }()
+			m.runFrameFromPrev(frc, b, prev)
+		}()
+		results = append(results, pathRes{m.C.And(sc.pc...), frc.result})
+		work = append(work, sc.pending...)
+		if len(results)+len(work) > mergeMaxPaths {
+			panic(mergeAbort{"too many local paths in a loop continuation"})
+		}
+	}
+	m.merge = cur
+	v := m.mergeResults(fr.fn, results)
+	cur.inv.memo[key] = v
+	return v, true
 }
